@@ -338,6 +338,50 @@ def run(tier, seed):
             rep.violation("cached-property:model-mismatch", {"broken": "correspondence impl<->Model/CachedProperty.v (ptrace), per-action snapshots", "case": sh[j][:4000]}, no_input=not fails)
     rep.cov["traces_validated_against_impl"] = len(texts)
     rep.notes["model_mismatches"] = mism
+    # directed: a subclass overrides the property and builds on the parent's through super(): one computation of each,
+    # the child's value served afterwards; like functools.cached_property in synchronous code
+    import functools as _ft
+    from gencalc import drive as _drive
+    for with_lock in (False, True):
+        runs = []
+        deco = a.cached_property(TLock) if with_lock else a.cached_property
+        CUR["sched"], CUR["locks"] = Sched(), []
+
+        class Base:
+            @deco
+            async def data(self):
+                runs.append("base")
+                return 1
+
+        class Child(Base):
+            @deco
+            async def data(self):
+                runs.append("child")
+                return (await super().data) + 1
+
+        class SBase:
+            @_ft.cached_property
+            def data(self):
+                return 1
+
+        class SChild(SBase):
+            @_ft.cached_property
+            def data(self):
+                return super().data + 1
+
+        async def use():
+            c = Child()
+            return [await c.data, await c.data, await Base().data]
+        try:
+            got = _drive(use())
+            sc = SChild()
+            want = [sc.data, sc.data, SBase().data]
+            why = None if got == want and runs == ["child", "base", "base"] else "values %r (functools: %r), getter runs %r" % (got, want, runs)
+        except BaseException as e:  # noqa
+            why = "failed with %r (getter runs %r)" % (e, runs)
+        rep.count(("super-delegation", with_lock), True)
+        if why:
+            rep.violation("cached_property:super", {"lock": with_lock, "why": "a subclass property awaiting super().<name>: " + why})
     if not proofs_ok:
         rep.violation("proof-broken", {"broken": rep.notes.get("broken_file", "?"), "log": rep.notes.get("build_log_tail", "")[-1500:]}, no_input=True)
     return rep.finish()
